@@ -43,26 +43,3 @@ fn c05_same_direction_replaces() {
     kani::cover!(!inbound, "outbound pair");
     assert!(tie(&a, &b, o, o));
 }
-
-/// C05: the derived `Ord` on PeerId is the lexicographic (big-endian unsigned) order on the
-/// 32 bytes - the model used by the MIR-level checks (256-bit bvult).
-#[kani::proof]
-#[kani::unwind(34)]
-fn c05_peer_id_order_is_lexicographic() {
-    let a: [u8; 32] = kani::any();
-    let b: [u8; 32] = kani::any();
-    let mut i = 0;
-    let mut lt = false;
-    let mut decided = false;
-    while i < 32 {
-        if !decided && a[i] != b[i] {
-            lt = a[i] < b[i];
-            decided = true;
-        }
-        i += 1;
-    }
-    kani::cover!(decided && lt, "a < b reachable");
-    kani::cover!(!decided, "equal reachable");
-    assert!((PeerId(a) < PeerId(b)) == lt);
-    assert!((PeerId(a) == PeerId(b)) == !decided);
-}
